@@ -10,6 +10,7 @@ pub mod c09;
 pub mod c10;
 pub mod c11;
 pub mod c12;
+pub mod c13;
 pub mod c14;
 
 pub struct Prop {
@@ -33,6 +34,7 @@ pub fn all() -> Vec<Prop> {
         Prop { id: "C12", run: c12::run, subs: c12::subs, rule: c12::RULE, assumptions: c12::ASSUMPTIONS },
         Prop { id: "C11", run: c11::run, subs: c11::subs, rule: c11::RULE, assumptions: c11::ASSUMPTIONS },
         Prop { id: "C14", run: c14::run, subs: c14::subs, rule: c14::RULE, assumptions: c14::ASSUMPTIONS },
+        Prop { id: "C13", run: c13::run, subs: c13::subs, rule: c13::RULE, assumptions: c13::ASSUMPTIONS },
     ]
 }
 
